@@ -25,6 +25,21 @@ CHECKS.update({
          "bounded: <= 4 symbolic steps (thorough 6), mailbox of <= 3 messages, numeric arguments from the menu; bufio/fmt.Fprint/bufio.Scanner are models validated by native replay; STLS/TLS and RETR content (C02) outside", "4 C13"),
 })
 
+CHECKS.update({
+ "C01": ("two halves at the message.Manager.Deliver interface: (1) the real SMTP session loop delivers exactly the envelope accepted since the last MAIL, once, exactly when the end of DATA is acknowledged (ghost envelope from reply codes); (2) the real StoreManager.Deliver + policy + memory store give each eligible accepted recipient exactly one new message with sender/To/subject/size, nothing else changes",
+         "memory back-end only (file store needs the unbuilt FS model); recipients from a menu of 5 addresses (duplicates by case/+ext, discard-listed domain), <= 3 recipients, 3 naming modes; enmime header decoding is a model; session half bounded as C03", "4 C01"),
+ "C02": ("byte-exact content: Deliver -> mem.AddMessage -> Source()/Size() equals Return-Path + Received + body for every body of <= n symbolic bytes (all 256 values); REST and web UI source handlers write exactly Source(); POP3 RETR/TOP re-stuffs and CRLF-normalises line by line so that un-stuffing gives the source back",
+         "bodies <= 3 (thorough 10) bytes, POP3 sources <= 5 (8) bytes ending in LF (the shape textproto.ReadDotBytes produces); bufio.Scanner, textproto and io.Copy are models; lines beyond 64 KiB, MiB bodies and the file store are outside the claim", "4 C02"),
+ "C12": ("RetentionScanner.DoScan over the real memory store with symbolic message ages, period and a symbolic non-decreasing clock: expired => removed, young => retained in order, a delivery landing between the scanner's snapshot and its removals survives; Start/Join with cancellation at the n-th observation point: disabled for period <= 0, loop exits, no further mailbox visited",
+         "memory back-end; <= 5 (6) messages in two mailboxes; time.Time modelled as int64 nanoseconds; timers fire only when nothing else is ready (a closed Done wins over a pending timer)", "4 C12"),
+ "C14": ("each REST v1 handler and web UI handler over the real StoreManager + memory store: status <=> existence for every name alias / id, payload and effects equal the store; the Go client's requests (real net/url + net/http request construction) match the server's route table incl. the body mark-seen requires; escaping round trip for all short ASCII names",
+         "gorilla/mux, net/http serving, encoding/json and enmime are models (handlers are called with extracted route variables); memory back-end; one request per pre-state of <= 2 (3) messages; client names from a menu of 9 URL-hostile names; base path prefixing outside", "4 C14"),
+ "C16": ("deleted events: k symbolic operations on mem.New with cap / size limit and a listener registered through extension.Host — the events seen are exactly the departures of the reference model, one each; stored events: one per message stored by StoreManager.Deliver",
+         "count/identity only: listeners are run to completion after each operation, so 'next invocation only after the previous finished' and stored-before-deleted ordering under arbitrary schedules are NOT decided (the async broker starts one goroutine per event; see DESIGN §6); memory back-end", "4 C16"),
+ "C17": ("before-hooks honoured literally: two listeners per event registered through the real EventBroker answer nil/defer/allow/deny(code) symbolically; MAIL/RCPT replies, first-answer-wins, policy fallback, recipient limit; BeforeMessageStored replacement used literally by Deliver",
+         "the gopher-lua VM is outside the encoding: listeners are Go closures standing for what luahost hands to the broker; Lua error handling, statePool concurrency and 'wrong kind of value' are not decided", "4 C17"),
+})
+
 NOT_APPLICABLE = {}
 
 def main():
@@ -62,7 +77,7 @@ def main():
         "engines": [{"name": "gosmt", "path": "/verif/engine", "serves_properties": sorted(CHECKS), "kind_free_text": "go/ssa symbolic executor with state merging; SMT-LIB2 QF_BV queries decided by z3 5.1 (z3-new); counterexample and cover models replayed natively through `go test -overlay`"}],
         "checks": checks,
         "not_applicable": na,
-        "notes": "Every check exits 0 = all obligations unsat within the stated bounds and all cover points satisfiable and natively reached; 1 = replayed violation not listed in known_findings.json; 2 = broken (unsupported code, undecided query, vacuous harness, model that does not reproduce). fix: commits in /repo: 288c728 (C03), 7d87c36 (C06), 1c28c1b (C07), 3e84664 (C08).",
+        "notes": "Every check exits 0 = all obligations unsat within the stated bounds and all cover points satisfiable and natively reached; 1 = replayed violation not listed in known_findings.json; 2 = broken (unsupported code, undecided query, vacuous harness, model that does not reproduce). fix: commits in /repo: 288c728 (C03), 7d87c36 (C06), 1c28c1b (C07), 3e84664 (C08), ab07dc1 (C14), 67b69e1 (C16).",
     }
     json.dump(m, open('/verif/MANIFEST.json', 'w'), indent=1)
     print("checks:", [c['property_id'] for c in checks], "n/a:", len(na))
